@@ -257,6 +257,9 @@ inline std::string userinfo_part(ByteSource& b) {
 
 inline std::string path_segment(ByteSource& b) {
   static const char* pool[] = {"a", "b", "..", ".", "", "%2e", "%2E%2e", ".%2E", "%2e%2E", "C:", "C|", "c:", "a b", "\xc3\xa4", "%", "%zz", "%41", "~", "^", "`", "{", "}", "\"", "<", ">", ";", "=", "foo.html", "index", "...", ".a", "%2e.", "%2f", "%5C", "a:b", "@", "[", "]", "|", "'", "!", "$", "&", "(", ")", "*", "+", ",", "\x7f", "\x01", "\xf0\x9f\x98\x80", "d:", "Z|x", "1|", "%2E", "\t.", ".\n.", "a\rb", " "};
+  // a quarter of the segments come from the structural mini-pool (empty, dot and
+  // double-dot segments in every spelling), so that "//../x", "/a/./../b" are frequent
+  if (b.chance(64)) { static const char* st[] = {"", ".", "..", "a", "%2e", "%2E%2e", ".%2e"}; return b.pick(st); }
   std::string s = b.pick(pool);
   if (b.chance(10)) s = pad_to(b, s);
   return s;
